@@ -5,6 +5,7 @@ import PqlModel.Props.C02Semantics
 import PqlModel.Props.C02Statement
 import PqlModel.Props.C02SemanticsCex
 import PqlModel.Props.C05ParseStatement
+import PqlModel.Props.C03Full
 #print axioms Pql.C02.C02_canAttachSort_table
 #print axioms Pql.C02.C02_top_eq_sort_take
 #print axioms Pql.C02.C02_spec_top
